@@ -34,7 +34,17 @@ HEALTHY = {
 }
 
 
+# healthy servers whose single-target status is "warning" / "good" (every archetype above ends in "failure"): used where the rank of the statuses matters
+OTHER_STATUS = {
+    'warn-only': dict(banner='SSH-2.0-OpenSSH_9.9', kex=['curve25519-sha256', MARK], key=['ssh-ed25519'], enc=['aes128-ctr'], mac=['hmac-sha2-256']),
+    'good-only': dict(banner='SSH-2.0-OpenSSH_9.9', kex=['sntrup761x25519-sha512@openssh.com', MARK], key=['ssh-ed25519'], enc=['aes256-gcm@openssh.com'], mac=['hmac-sha2-256-etm@openssh.com']),
+}
+
+
 def healthy(name):
+    if name in OTHER_STATUS:
+        a = OTHER_STATUS[name]
+        return {'banner': a['banner'], 'kex': audit.sym_kex(a['kex'], a['key'], a['enc'], a['mac']), 'hostkeys': {'ssh-ed25519': {'type': 'ed25519'}}, 'hostkey_default': None, 'gex': None}
     a = HEALTHY[name]
     if a.get('ssh1'):
         return {'banner': 'SSH-1.5-OpenSSH_1.2.3', 'proto': 1, 'ssh1': {'cmask': 0x4c, 'amask': 0x0e}}
